@@ -260,7 +260,7 @@ def sp_fpr(tid: int, crit: bool, lform: int, b0: int, b1: int, f0: int, f1: int)
 
 @ob('O5.1-notation', 'notation data: four flag octets, name and value lengths, name, value',
     'four symbolic flag octets, name length 0..2, value length 0..2, symbolic name/value octets; critical bit, length form 1/5',
-    cond_timeout={'q': 300, 't': 900}, partitions=[['nl == %d' % a, 'vl == %d' % b] for a in range(3) for b in range(3)])
+    cond_timeout={'q': 300, 't': 900}, partitions=[['nl == %d' % a, 'vl == %d' % b, 'lform == %d' % f] + ([] if a + b < 4 else [c]) for a in range(3) for b in range(3) for f in (1, 5) for c in (('crit', 'not crit') if a + b == 4 else ('',))])
 def sp_notation(crit: bool, lform: int, g0: int, g1: int, g2: int, g3: int, nl: int, vl: int, c0: int, c1: int, c2: int, c3: int) -> bool:
     """
     pre: lform in (1, 5)
